@@ -84,6 +84,18 @@ Proof. intros Hn E. pose proof (qof_pos n Hn) as H. rewrite E in H. apply (Qlt_i
 Lemma INR_pos n : (0 < n)%nat -> 0 < INR n.
 Proof. intros Hn. apply lt_0_INR. exact Hn. Qed.
 
+Lemma sumR_sub f g n : sumR (fun i => f i - g i) n = sumR f n - sumR g n.
+Proof. induction n; cbn [sumR]; [lra|]. rewrite IHn. lra. Qed.
+Lemma sumR_nonneg f n : (forall i, (i < n)%nat -> 0 <= f i) -> 0 <= sumR f n.
+Proof. intros H. rewrite <- (sumR_zero n). apply sumR_le. exact H. Qed.
+Lemma sumR_zero_inv f n : (forall i, (i < n)%nat -> 0 <= f i) -> sumR f n = 0 -> forall i, (i < n)%nat -> f i = 0.
+Proof.
+  induction n; intros Hnn Hs i Hi; [lia|]. cbn [sumR] in Hs.
+  assert (H1 : 0 <= sumR f n) by (apply sumR_nonneg; intros; apply Hnn; lia).
+  assert (H2 : 0 <= f n) by (apply Hnn; lia).
+  destruct (Nat.eq_dec i n) as [->|Hne]; [lra|]. apply IHn; [intros; apply Hnn; lia|lra|lia].
+Qed.
+
 Section RealLog.
 Variable lg : Q -> R.
 Hypothesis lg_proper : forall a b, (a == b)%Q -> lg a = lg b.
@@ -238,6 +250,254 @@ Proof.
   - apply Rmult_le_pos; lra.
   - rewrite <- (Rinv_r (lg (qof n))) by lra. apply Rmult_le_compat_r; lra.
 Qed.
+(* ---------- the other clauses of partition_distance for the real-valued model ---------- *)
+Lemma lg_strict a b : (0 < a)%Q -> (a < b)%Q -> lg a < lg b.
+Proof.
+  intros Ha Hab. assert (Hb : (0 < b)%Q) by lra.
+  assert (Hq : (0 < a / b)%Q) by (apply Qlt_shift_div_l; [exact Hb|lra]).
+  assert (E : lg a = lg b + lg (a / b)).
+  { rewrite <- (lg_mul b (a / b) Hb Hq). apply lg_proper. field. lra. }
+  pose proof (lg_gibbs (a / b) Hq) as G.
+  assert (Hlt : (a / b < 1)%Q) by (apply Qlt_shift_div_r; [exact Hb|lra]).
+  apply Qlt_Rlt in Hlt. rewrite Q2R_1 in Hlt. lra.
+Qed.
+
+Lemma lg_inj_le a b : (0 < a)%Q -> (a <= b)%Q -> lg a = lg b -> (a == b)%Q.
+Proof.
+  intros Ha Hab E. destruct (Qlt_le_dec a b) as [H|H]; [|lra].
+  pose proof (lg_strict a b Ha H) as S. rewrite E in S. exfalso. exact (Rlt_irrefl _ S).
+Qed.
+
+Lemma entropyR_same n c c' : (0 < n)%nat -> canon n c -> canon n c' -> same_part n c c' ->
+  entropyR lg n (hist n c) = entropyR lg n (hist n c').
+Proof.
+  intros Hn Hc Hc' H. rewrite (entropyR_node_form n c Hn Hc), (entropyR_node_form n c' Hn Hc'). unfold entropyR_nf.
+  f_equal. apply sumR_ext. intros i Hi. f_equal. apply lg_proper. unfold bsize, Qdiv.
+  apply Qmult_comp; [apply mdz_cnt_same; assumption|reflexivity].
+Qed.
+
+Lemma HxyR_sym n cx cy : (0 < n)%nat -> HxyR n cx cy = HxyR n cy cx.
+Proof.
+  intros Hn. unfold HxyR. apply entropyR_same; try exact Hn; try apply relabel_canon.
+  intros i j Hi Hj. rewrite (joint_same n cx cy i j Hi Hj), (joint_same n cy cx i j Hi Hj). tauto.
+Qed.
+
+Theorem pd_generalR_symmetric n cx cy : (0 < n)%nat ->
+  fst (pd_generalR lg n cx cy) = fst (pd_generalR lg n cy cx) /\
+  snd (pd_generalR lg n cx cy) = snd (pd_generalR lg n cy cx).
+Proof.
+  intros Hn. rewrite !pd_generalR_unfold. cbn [fst snd]. rewrite (HxyR_sym n cx cy Hn).
+  split.
+  - replace (2 * HxyR n cy cx - HxR n cy - HxR n cx) with (2 * HxyR n cy cx - HxR n cx - HxR n cy) by lra. reflexivity.
+  - replace (HxR n cy + HxR n cx) with (HxR n cx + HxR n cy) by lra. reflexivity.
+Qed.
+
+Theorem pd_generalR_partition_only n cx cy cx' cy' : (0 < n)%nat -> same_part n cx cx' -> same_part n cy cy' ->
+  pd_generalR lg n cx cy = pd_generalR lg n cx' cy'.
+Proof.
+  intros Hn Hx Hy. rewrite !pd_generalR_unfold.
+  assert (E1 : HxR n cx = HxR n cx').
+  { apply entropyR_same; try exact Hn; try apply relabel_canon. apply same_part_relabel; exact Hx. }
+  assert (E2 : HxR n cy = HxR n cy').
+  { apply entropyR_same; try exact Hn; try apply relabel_canon. apply same_part_relabel; exact Hy. }
+  assert (E3 : HxyR n cx cy = HxyR n cx' cy').
+  { unfold HxyR. apply entropyR_same; try exact Hn; try apply relabel_canon.
+    intros i j Hi Hj. rewrite (joint_same n cx cy i j Hi Hj), (joint_same n cx' cy' i j Hi Hj).
+    rewrite (Hx i j Hi Hj), (Hy i j Hi Hj). reflexivity. }
+  rewrite E1, E2, E3. reflexivity.
+Qed.
+
+Theorem partition_distanceR_symmetric n cx cy : (0 < n)%nat ->
+  fst (partition_distanceR lg n cx cy) = fst (partition_distanceR lg n cy cx) /\
+  snd (partition_distanceR lg n cx cy) = snd (partition_distanceR lg n cy cx).
+Proof.
+  intros Hn. unfold partition_distanceR. rewrite (pd_trivial_sym n cy cx).
+  destruct (pd_trivial n cx cy); [split; reflexivity|apply pd_generalR_symmetric; exact Hn].
+Qed.
+
+Theorem partition_distanceR_partition_only n cx cy cx' cy' : (0 < n)%nat -> same_part n cx cx' -> same_part n cy cy' ->
+  partition_distanceR lg n cx cy = partition_distanceR lg n cx' cy'.
+Proof.
+  intros Hn Hx Hy. unfold partition_distanceR. rewrite (pd_trivial_same n cx cy cx' cy' Hx Hy).
+  destruct (pd_trivial n cx' cy'); [reflexivity|apply pd_generalR_partition_only; assumption].
+Qed.
+
+(* refining a partition cannot lower the entropy; equality forces equal block sizes *)
+Lemma entropyR_nf_refine n c c' : (0 < n)%nat ->
+  (forall i l, (i < n)%nat -> (l < n)%nat -> c l = c i -> c' l = c' i) ->
+  entropyR_nf n c' <= entropyR_nf n c /\
+  (entropyR_nf n c' = entropyR_nf n c -> forall i, (i < n)%nat -> (bsize n c i == bsize n c' i)%Q).
+Proof.
+  intros Hn Href. pose proof (qof_pos n Hn) as Hq. pose proof (INR_pos n Hn) as HN.
+  assert (HiN : 0 < / INR n) by (apply Rinv_0_lt_compat; exact HN).
+  assert (Hle : forall i, (i < n)%nat -> (bsize n c i / qof n <= bsize n c' i / qof n)%Q).
+  { intros i Hi. unfold Qdiv. apply Qmult_le_compat_r; [apply bsize_le; intros l Hl; apply Href; assumption|].
+    apply Qlt_le_weak, Qinv_lt_0_compat. exact Hq. }
+  assert (Hpos : forall i, (i < n)%nat -> (0 < bsize n c i / qof n)%Q).
+  { intros i Hi. apply Qlt_shift_div_l; [exact Hq|]. pose proof (bsize_ge1 n c i Hi). lra. }
+  set (d := fun i => / INR n * lg (bsize n c' i / qof n)%Q - / INR n * lg (bsize n c i / qof n)%Q).
+  assert (Hterm : forall i, (i < n)%nat -> 0 <= d i).
+  { intros i Hi. unfold d. pose proof (lg_mono _ _ (Hpos i Hi) (Hle i Hi)) as Hl. nra. }
+  assert (Hdiff : entropyR_nf n c - entropyR_nf n c' = sumR d n).
+  { unfold entropyR_nf, d. rewrite sumR_sub. lra. }
+  pose proof (sumR_nonneg _ n Hterm) as Hnn. split; [lra|].
+  intros Heq i Hi.
+  assert (Hz : sumR d n = 0) by lra.
+  pose proof (sumR_zero_inv _ n Hterm Hz i Hi) as Hi0. unfold d in Hi0.
+  assert (Hlog : lg (bsize n c i / qof n)%Q = lg (bsize n c' i / qof n)%Q).
+  { apply (Rmult_eq_reg_l (/ INR n)); lra. }
+  pose proof (lg_inj_le _ _ (Hpos i Hi) (Hle i Hi) Hlog) as E.
+  assert (E1 : (bsize n c i == bsize n c i / qof n * qof n)%Q) by (field; lra).
+  rewrite E1, E. field. lra.
+Qed.
+
+Theorem HxyR_ge n cx cy : (0 < n)%nat -> HxR n cx <= HxyR n cx cy /\ HxR n cy <= HxyR n cx cy.
+Proof.
+  intros Hn. unfold HxR, HxyR. rewrite !entropyR_node_form by (exact Hn || apply relabel_canon).
+  split; apply entropyR_nf_refine; try exact Hn; intros i l Hi Hl H;
+    apply (joint_same n cx cy l i Hl Hi) in H; apply relabel_same; tauto.
+Qed.
+
+(* VIn = 0 only for the same partition up to renaming *)
+Theorem pd_generalR_VIn_zero_same n cx cy : (1 < n)%nat -> fst (pd_generalR lg n cx cy) = 0 -> same_part n cx cy.
+Proof.
+  intros Hn H0. rewrite pd_generalR_unfold in H0. cbn [fst] in H0.
+  pose proof (lg_n_pos n Hn) as HL.
+  assert (Hnum : 2 * HxyR n cx cy - HxR n cx - HxR n cy = 0).
+  { apply (Rmult_eq_reg_r (/ lg (qof n))); [|apply Rinv_neq_0_compat; lra]. unfold Rdiv in H0. lra. }
+  destruct (HxyR_ge n cx cy) as [H1 H2]; [lia|].
+  assert (E1 : HxyR n cx cy = HxR n cx) by lra.
+  assert (E2 : HxyR n cx cy = HxR n cy) by lra.
+  unfold HxR, HxyR in E1, E2. rewrite !entropyR_node_form in E1, E2 by (lia || apply relabel_canon).
+  set (x := relabel n cx) in *. set (y := relabel n cy) in *. set (xy := relabel n (joint_key n x y)) in *.
+  assert (Rx : forall i l, (i < n)%nat -> (l < n)%nat -> xy l = xy i -> x l = x i).
+  { intros i l Hi Hl H. apply (joint_same n cx cy l i Hl Hi) in H. apply relabel_same; tauto. }
+  assert (Ry : forall i l, (i < n)%nat -> (l < n)%nat -> xy l = xy i -> y l = y i).
+  { intros i l Hi Hl H. apply (joint_same n cx cy l i Hl Hi) in H. apply relabel_same; tauto. }
+  destruct (entropyR_nf_refine n xy x) as [_ Sx]; [lia|exact Rx|].
+  destruct (entropyR_nf_refine n xy y) as [_ Sy]; [lia|exact Ry|].
+  specialize (Sx (eq_sym E1)). specialize (Sy (eq_sym E2)).
+  intros i j Hi Hj. split; intros H.
+  - assert (Hx : x j = x i) by (apply relabel_same; [exact Hj|exact Hi|symmetry; exact H]).
+    pose proof (bsize_eq_blocks n xy x i Hi (fun l Hl => Rx i l Hi Hl) (Sx i Hi) j Hj Hx) as Hxy.
+    apply (joint_same n cx cy j i Hj Hi) in Hxy. symmetry. tauto.
+  - assert (Hy : y j = y i) by (apply relabel_same; [exact Hj|exact Hi|symmetry; exact H]).
+    pose proof (bsize_eq_blocks n xy y i Hi (fun l Hl => Ry i l Hi Hl) (Sy i Hi) j Hj Hy) as Hxy.
+    apply (joint_same n cx cy j i Hj Hi) in Hxy. symmetry. tauto.
+Qed.
+
+(* H >= 0, and H = 0 only for the one-block partition *)
+Lemma entropyR_nf_terms n c i : (0 < n)%nat -> (i < n)%nat -> 0 <= - (/ INR n * lg (bsize n c i / qof n)%Q).
+Proof.
+  intros Hn Hi. pose proof (qof_pos n Hn) as Hq. pose proof (INR_pos n Hn) as HN.
+  assert (HiN : 0 < / INR n) by (apply Rinv_0_lt_compat; exact HN).
+  assert (Hpos : (0 < bsize n c i / qof n)%Q).
+  { apply Qlt_shift_div_l; [exact Hq|]. pose proof (bsize_ge1 n c i Hi). lra. }
+  assert (Hle : (bsize n c i / qof n <= 1)%Q).
+  { apply Qle_shift_div_r; [exact Hq|]. pose proof (bsize_le_n n c i). lra. }
+  pose proof (lg_mono _ _ Hpos Hle) as Hl. rewrite lg_1 in Hl. nra.
+Qed.
+
+Lemma entropyR_nf_opp n c :
+  entropyR_nf n c = sumR (fun i => - (/ INR n * lg (bsize n c i / qof n)%Q)) n.
+Proof.
+  unfold entropyR_nf.
+  transitivity (-1 * sumR (fun i => / INR n * lg (bsize n c i / qof n)%Q) n); [lra|].
+  rewrite <- sumR_scal. apply sumR_ext. intros i _. lra.
+Qed.
+
+Lemma entropyR_nf_nonneg n c : (0 < n)%nat -> 0 <= entropyR_nf n c.
+Proof. intros Hn. rewrite entropyR_nf_opp. apply sumR_nonneg. intros i Hi. apply entropyR_nf_terms; assumption. Qed.
+
+Lemma entropyR_nf_zero_one_block n c : (0 < n)%nat -> entropyR_nf n c = 0 ->
+  forall i l, (i < n)%nat -> (l < n)%nat -> c l = c i.
+Proof.
+  intros Hn H0 i l Hi Hl. pose proof (qof_pos n Hn) as Hq. pose proof (INR_pos n Hn) as HN.
+  assert (HiN : 0 < / INR n) by (apply Rinv_0_lt_compat; exact HN).
+  rewrite entropyR_nf_opp in H0.
+  pose proof (sumR_zero_inv _ n (fun i Hi => entropyR_nf_terms n c i Hn Hi) H0 i Hi) as Hi0. cbn beta in Hi0.
+  assert (Hlog : lg (bsize n c i / qof n)%Q = lg 1).
+  { rewrite lg_1. apply (Rmult_eq_reg_l (/ INR n)); lra. }
+  assert (Hpos : (0 < bsize n c i / qof n)%Q).
+  { apply Qlt_shift_div_l; [exact Hq|]. pose proof (bsize_ge1 n c i Hi). lra. }
+  assert (Hle : (bsize n c i / qof n <= 1)%Q).
+  { apply Qle_shift_div_r; [exact Hq|]. pose proof (bsize_le_n n c i). lra. }
+  pose proof (lg_inj_le _ _ Hpos Hle Hlog) as E1.
+  apply (bsize_full_block n c i); [|exact Hl].
+  assert (E2 : (bsize n c i == bsize n c i / qof n * qof n)%Q) by (field; lra). rewrite E2, E1. ring.
+Qed.
+
+Lemma HxR_zero_one_block n cx : (0 < n)%nat -> HxR n cx = 0 -> Nat.eqb (vmax n (relabel n cx)) 1 = true.
+Proof.
+  intros Hn H0. unfold HxR in H0. rewrite entropyR_node_form in H0 by (exact Hn || apply relabel_canon).
+  apply one_block_iff. split; [exact Hn|]. intros i j Hi Hj. apply (relabel_same n cx i j Hi Hj).
+  symmetry. apply (entropyR_nf_zero_one_block n _ Hn H0 i j Hi Hj).
+Qed.
+
+Lemma HxR_nonneg n cx : (0 < n)%nat -> 0 <= HxR n cx.
+Proof.
+  intros Hn. unfold HxR. rewrite entropyR_node_form by (exact Hn || apply relabel_canon).
+  apply entropyR_nf_nonneg; exact Hn.
+Qed.
+
+(* same partition up to renaming => VIn = 0 and MIn = 1 *)
+Theorem partition_distanceR_same n cx cy : (0 < n)%nat -> same_part n cx cy ->
+  fst (partition_distanceR lg n cx cy) = 0 /\ snd (partition_distanceR lg n cx cy) = 1.
+Proof.
+  intros Hn H. unfold partition_distanceR. destruct (pd_trivial n cx cy) eqn:Et; [split; reflexivity|].
+  rewrite pd_generalR_unfold. cbn [fst snd].
+  assert (E2 : HxR n cy = HxR n cx).
+  { apply entropyR_same; try exact Hn; try apply relabel_canon. apply same_part_relabel.
+    intros i j Hi Hj. symmetry. apply H; assumption. }
+  assert (E3 : HxyR n cx cy = HxR n cx).
+  { unfold HxyR, HxR. apply entropyR_same; try exact Hn; try apply relabel_canon.
+    intros i j Hi Hj. rewrite (joint_same n cx cy i j Hi Hj), (relabel_same n cx i j Hi Hj).
+    pose proof (H i j Hi Hj). tauto. }
+  rewrite E2, E3. split; [unfold Rdiv; ring|].
+  assert (Hne : HxR n cx <> 0).
+  { intros H0. pose proof (HxR_zero_one_block n cx Hn H0) as Ex.
+    pose proof (one_block_same n cx cy H) as Exy. unfold pd_trivial in Et. rewrite <- Exy, Ex in Et.
+    rewrite orb_true_r in Et. discriminate. }
+  field. lra.
+Qed.
+
+Theorem VInR_zero_same n cx cy : (1 < n)%nat -> fst (partition_distanceR lg n cx cy) = 0 -> same_part n cx cy.
+Proof.
+  intros Hn. unfold partition_distanceR. destruct (pd_trivial n cx cy) eqn:Et.
+  - intros _. apply pd_trivial_same_part. exact Et.
+  - apply pd_generalR_VIn_zero_same; assumption.
+Qed.
+
+Theorem MInR_one_same n cx cy : (1 < n)%nat -> snd (partition_distanceR lg n cx cy) = 1 -> same_part n cx cy.
+Proof.
+  intros Hn. unfold partition_distanceR. destruct (pd_trivial n cx cy) eqn:Et.
+  - intros _. apply pd_trivial_same_part. exact Et.
+  - intros H1. apply pd_generalR_VIn_zero_same; [exact Hn|].
+    rewrite pd_generalR_unfold in *. cbn [fst snd] in *.
+    assert (Hn0 : (0 < n)%nat) by lia.
+    pose proof (HxR_nonneg n cx Hn0) as Px. pose proof (HxR_nonneg n cy Hn0) as Py.
+    assert (Hne : HxR n cx + HxR n cy <> 0).
+    { intros H0. assert (Ex : HxR n cx = 0) by lra. assert (Ey : HxR n cy = 0) by lra.
+      unfold pd_trivial in Et. rewrite (HxR_zero_one_block n cx Hn0 Ex), (HxR_zero_one_block n cy Hn0 Ey) in Et.
+      rewrite orb_true_r in Et. discriminate. }
+    assert (Hnum : 2 * (HxR n cx + HxR n cy - HxyR n cx cy) = HxR n cx + HxR n cy).
+    { apply (Rmult_eq_reg_r (/ (HxR n cx + HxR n cy))); [|apply Rinv_neq_0_compat; exact Hne].
+      unfold Rdiv in H1. rewrite H1. field. exact Hne. }
+    assert (Hz : 2 * HxyR n cx cy - HxR n cx - HxR n cy = 0) by lra.
+    rewrite Hz. unfold Rdiv. ring.
+Qed.
+
+(* together: for n > 1,  VIn = 0 <=> same partition <=> MIn = 1 *)
+Theorem partition_distanceR_exactly_when n cx cy : (1 < n)%nat ->
+  (fst (partition_distanceR lg n cx cy) = 0 <-> same_part n cx cy) /\
+  (snd (partition_distanceR lg n cx cy) = 1 <-> same_part n cx cy).
+Proof.
+  intros Hn. assert (Hn0 : (0 < n)%nat) by lia. split; split.
+  - apply VInR_zero_same; exact Hn.
+  - intros H. apply (partition_distanceR_same n cx cy Hn0 H).
+  - apply MInR_one_same; exact Hn.
+  - intros H. apply (partition_distanceR_same n cx cy Hn0 H).
+Qed.
 End RealLog.
 
 (* ---------- Coq's natural logarithm satisfies the three hypotheses ---------- *)
@@ -252,6 +512,24 @@ Proof. intros Hx. pose proof (exp_ineq1_le (ln x)) as H. rewrite (exp_ln x Hx) i
 
 Lemma lnQ_gibbs a : (0 < a)%Q -> lnQ a <= Q2R a - 1.
 Proof. intros Ha. unfold lnQ. apply ln_le_sub1. apply Q2R_pos. exact Ha. Qed.
+
+Theorem partition_distance_ln_symmetric n cx cy : (0 < n)%nat ->
+  fst (partition_distanceR lnQ n cx cy) = fst (partition_distanceR lnQ n cy cx) /\
+  snd (partition_distanceR lnQ n cx cy) = snd (partition_distanceR lnQ n cy cx).
+Proof. exact (partition_distanceR_symmetric lnQ lnQ_proper n cx cy). Qed.
+
+Theorem partition_distance_ln_partition_only n cx cy cx' cy' : (0 < n)%nat -> same_part n cx cx' -> same_part n cy cy' ->
+  partition_distanceR lnQ n cx cy = partition_distanceR lnQ n cx' cy'.
+Proof. exact (partition_distanceR_partition_only lnQ lnQ_proper n cx cy cx' cy'). Qed.
+
+Theorem partition_distance_ln_exactly_when n cx cy : (1 < n)%nat ->
+  (fst (partition_distanceR lnQ n cx cy) = 0 <-> same_part n cx cy) /\
+  (snd (partition_distanceR lnQ n cx cy) = 1 <-> same_part n cx cy).
+Proof. exact (partition_distanceR_exactly_when lnQ lnQ_proper lnQ_mul lnQ_gibbs n cx cy). Qed.
+
+Theorem partition_distance_ln_same n cx cy : (0 < n)%nat -> same_part n cx cy ->
+  fst (partition_distanceR lnQ n cx cy) = 0 /\ snd (partition_distanceR lnQ n cx cy) = 1.
+Proof. exact (partition_distanceR_same lnQ lnQ_proper lnQ_mul lnQ_gibbs n cx cy). Qed.
 
 Theorem VIn_range_ln n cx cy : (1 < n)%nat -> 0 <= fst (partition_distanceR lnQ n cx cy) <= 1.
 Proof. exact (VInR_range lnQ lnQ_proper lnQ_mul lnQ_gibbs n cx cy). Qed.
